@@ -257,7 +257,7 @@ PAYLOADS_QUICK = [b"", b"\x00", b"\x7e", b"\x42", bytes(SPEC_RESERVED) * 2, byte
                   bytes(range(129)), bytes([0x11] * 200)]
 
 
-@rule("R03.5", ["C03"], "T-FUN", floor=400)
+@rule("R03.5", ["C03", "C01"], "T-FUN", floor=400)
 def r03_5(ctx):
     """Control-byte packing and its inverse, per class, against an independently written encoder: DATA for all
     8x2x8 field values and payload lengths up to 200 (randomised with the LFSR sequence, CRC-CCITT seed FFFF
@@ -390,7 +390,7 @@ def r03_6(ctx):
                             func=m, trace=p.trace())
 
 
-@rule("R03.7", ["C03"], "T-FUN", floor=4)
+@rule("R03.7", ["C03", "C01"], "T-FUN", floor=4)
 def r03_7(ctx):
     """Randomisation: PSEUDO_RANDOM_DATA_SEQUENCE is the LFSR sequence seed 0x42 / tap 0xB8 of length >= 256 (>=
     the asserted payload bound); _randomize XORs position-wise from index 0 and is an involution."""
@@ -415,7 +415,7 @@ def transport_model():
     return [("*.is_closing", lambda px, t, a, k, fr: False)]
 
 
-@rule("R03.8", ["C03", "C11"], "T-FUN", floor=100)
+@rule("R03.8", ["C03", "C11", "C01"], "T-FUN", floor=100)
 def r03_8(ctx):
     """_write_frame emits bytes(prefix) ++ STUFF(frame.to_bytes()) ++ FLAG: stuffing covers control byte, payload
     and CRC (checked for every ACK/NAK, every DATA header with reserved-rich payloads); send_reset emits
@@ -982,7 +982,7 @@ def _frame_fields(o):
     return out
 
 
-@rule("R02.5", ["C02", "C04"], "T-FUN", floor=60)
+@rule("R02.5", ["C02", "C04", "C01"], "T-FUN", floor=60)
 def r02_5(ctx):
     """Streams and chunkings against a reference receiver written from the specification: curated byte streams covering
     every reserved-byte situation (back-to-back frames, CANCEL before a frame, SUBSTITUTE inside a frame, bad CRC, invalid
@@ -1011,7 +1011,8 @@ def r02_5(ctx):
             models=[("binascii.crc_hqx", crc_model), ("self.frame_received", upper),
                     ("self._transport.is_closing", lambda px_, t, a, k, fr: fault["mode"] == "write"),
                     ("self._transport.write", Outcomes(OK(None))),
-                    ("*.isEnabledFor", lambda px_, t, a, k, fr: fault["mode"] == "debug")])
+                    ("*.isEnabledFor", lambda px_, t, a, k, fr: fault["mode"] == "debug"),
+                    ("*.done", lambda px_, t, a, k, fr: False), ("*.cancelled", lambda px_, t, a, k, fr: False)])
     px.inline_root = f
     streams = _streams(ctx)
     runs = [(name, stream, None) for name, stream in streams.items()]
